@@ -9,6 +9,7 @@ R02.4 derivative factors: i·(R + τj − τi), applied `der` times before the t
 R02.5 q→R library wrappers agree in direction; forward transform is divided by the number of mesh points.
 R02.6 no array is shared between the FFTW plan and a caller (may-alias analysis over the methods of FFT_R_to_k).
 R02.7 every Data_K object configures (set_fft_R_to_k) a private copy of the system's R-vectors.
+R02.8 the back-end selector self.lib holds only normalised (lower-case) names, which is what the dispatch branches compare with.
 """
 from __future__ import annotations
 
@@ -278,6 +279,9 @@ def run(ctx) -> None:
     r3.instance(f"{apf.short} ⟷ {setf.short}")
     tops = [s for s in setf.node.body if isinstance(s, ast.If)]
     if len(tops) != 1:
+        klp_ = next((p_ for p_ in setf.params if "k_list" in p_), "k_list")
+        tops = [s for s in tops if norm(s.test) in (f"{klp_} is not None", f"{klp_} is None")]
+    if len(tops) != 1:
         raise AnalysisError("set_fft_R_to_k: expected one top-level mode branch")
 
     def assigned(body) -> Set[str]:
@@ -483,6 +487,10 @@ def run(ctx) -> None:
     # ---------------------------------------------------------------- R02.6
     fftw_buffer_ownership(ctx, cls)
 
+    # ---------------------------------------------------------------- R02.8
+    backend_selector(ctx, cls)
+    transform_object_state(ctx, cls)
+
     # ---------------------------------------------------------------- R02.7
     r7 = ctx.rule("R02.7", "every Data_K object configures its own copy of the R-vectors")
     conf_sites = []
@@ -527,6 +535,119 @@ def run(ctx) -> None:
             okcp = isinstance(v_, ast.Call) and call_name(v_) in ("Rvectors", "self.__class__", "type(self)", "copy.deepcopy", "deepcopy")
     r7.check(okcp, "Rvectors.copy() builds a new object", cpy or RV, cpy.node if cpy else rvc.node,
              "Rvectors.copy() no longer constructs a new Rvectors object", stmt="Rvectors.copy")
+
+
+def transform_object_state(ctx, cls) -> None:
+    """R02.9 — the phase tables of FFT_R_to_k (`exponent`, `exponent_k_list`) are cached properties computed from attributes set by the
+    constructor.  Re-using a constructed object with one of those attributes replaced keeps the table of the previous k-list / grid:
+    outside FFT_R_to_k.__init__ nothing may assign an attribute that a cached property of the class reads."""
+    idx = ctx.index
+    r9 = ctx.rule("R02.9", "attributes behind FFT_R_to_k's cached phase tables are only set by its constructor", min_instances=1)
+    cached = {m.name: m for m in cls.methods.values() if any(d.endswith("cached_property") for d in m.decorators)}
+    reads = set()
+    for m in cached.values():
+        for x in ast.walk(m.node):
+            if isinstance(x, ast.Attribute) and isinstance(x.value, ast.Name) and x.value.id == "self" and x.attr not in cached and x.attr not in cls.methods:
+                reads.add(x.attr)
+    r9.expect(bool(cached) and bool(reads), "cached phase tables located", f"{FF}:FFT_R_to_k", cls.node, "FFT_R_to_k: no cached property reading constructor state found")
+    r9.instance(f"FFT_R_to_k cached {sorted(cached)} read {sorted(reads)}")
+    n_sites = 0
+    for f in idx.all_functions():
+        rp = f.module.relpath
+        if not (rp.startswith("wannierberri/fourier/") or rp.startswith("wannierberri/data_K/") or rp.startswith("wannierberri/system/")):
+            continue
+        inside = f.cls is cls
+        if inside and f.name == "__init__":
+            continue
+        FS = None
+        for st in ast.walk(f.node):
+            tgts = st.targets if isinstance(st, ast.Assign) else [st.target] if isinstance(st, (ast.AugAssign, ast.AnnAssign)) else []
+            for t in tgts:
+                for x in (t.elts if isinstance(t, ast.Tuple) else [t]):
+                    if not (isinstance(x, ast.Attribute) and x.attr in reads):
+                        continue
+                    recv = x.value
+                    is_obj = inside and isinstance(recv, ast.Name) and recv.id == "self"
+                    if not is_obj:
+                        txt = norm(recv)
+                        if isinstance(recv, ast.Name):
+                            FS = FS or Sem(idx, f)
+                            try:
+                                alts = FS.alternatives(recv, FS.cfg.node(st))
+                            except Exception:
+                                alts = []
+                            txt = " | ".join(norm(a) for a in alts) or txt
+                        is_obj = "fft_R_to_k" in txt or "FFT_R_to_k(" in txt
+                    if is_obj:
+                        n_sites += 1
+                        stale = sorted(c_ for c_, m_ in cached.items() if any(isinstance(y, ast.Attribute) and y.attr == x.attr and isinstance(y.value, ast.Name)
+                                                                                 and y.value.id == "self" for y in ast.walk(m_.node)))
+                        r9.violation(f, st, f"`{norm1(st)}` replaces `{x.attr}` of a constructed FFT_R_to_k object; its cached {stale} was computed from the "
+                                     f"previous value and is not rebuilt, so the next transform uses the phases of the old k-list / grid")
+    r9.ok(f"no assignment to {sorted(reads)} of an FFT_R_to_k object outside its constructor ({n_sites} sites)") if n_sites == 0 else None
+
+
+def backend_selector(ctx, cls) -> None:
+    """R02.8 — the branches of transform / __call__ compare self.lib with lower-case literals.  Whatever is stored in self.lib must
+    therefore be a lower-case literal or a value that went through .lower() (directly or in a helper): a raw constructor argument
+    ('FFTW', 'Numpy' are accepted spellings) matches no branch and the transform is silently skipped."""
+    idx = ctx.index
+    r8 = ctx.rule("R02.8", "the back-end selector self.lib only holds normalised (lower-case) names", min_instances=2)
+    literals = set()
+    for m in cls.methods.values():
+        for c in ast.walk(m.node):
+            if isinstance(c, ast.Compare) and len(c.ops) == 1 and isinstance(c.ops[0], (ast.Eq, ast.NotEq, ast.In, ast.NotIn)):
+                sides = [c.left, c.comparators[0]]
+                if any(norm(x) == "self.lib" for x in sides):
+                    for x in sides:
+                        for k in ast.walk(x):
+                            if isinstance(k, ast.Constant) and isinstance(k.value, str):
+                                literals.add(k.value)
+    r8.expect(bool(literals), "dispatch literals located", f"{FF}:FFT_R_to_k", cls.node, "FFT_R_to_k: no comparison of self.lib with a string literal found")
+    lower_only = all(v == v.lower() for v in literals)
+
+    def normalised(S: Sem, e: ast.AST, at: int, depth: int = 0, seen=None) -> bool:
+        seen = seen if seen is not None else set()
+        if isinstance(e, ast.Constant) and isinstance(e.value, str):
+            return e.value == e.value.lower()
+        if isinstance(e, ast.Call) and isinstance(e.func, ast.Attribute) and e.func.attr in ("lower", "casefold") and not e.args:
+            return True
+        if isinstance(e, ast.IfExp):
+            return normalised(S, e.body, at, depth, seen) and normalised(S, e.orelse, at, depth, seen)
+        if isinstance(e, ast.Name):
+            ds = S.du.reaching(e.id, at)
+            if not ds:
+                return False
+            for d in ds:
+                if (d.name, d.node) in seen:
+                    continue
+                seen.add((d.name, d.node))
+                if d.kind != "assign" or d.value is None or d.index is not None:
+                    return False
+                if not normalised(S, d.value, d.node, depth, seen):
+                    return False
+            return True
+        if isinstance(e, ast.Call) and depth < 2:
+            fn = e.func
+            name = fn.id if isinstance(fn, ast.Name) else fn.attr if isinstance(fn, ast.Attribute) and isinstance(fn.value, ast.Name) and fn.value.id in ("self", "cls") else None
+            g = S.fi.module.functions.get(name) if isinstance(fn, ast.Name) and name else (idx.find_method(cls, name) if name else None)
+            if g is None:
+                return False
+            GS = Sem(idx, g)
+            rets = [r for r in ast.walk(g.node) if isinstance(r, ast.Return)]
+            return bool(rets) and all(r.value is not None and normalised(GS, r.value, GS.cfg.node(r), depth + 1, set()) for r in rets)
+        return False
+    for m in cls.methods.values():
+        MS = None
+        for st in ast.walk(m.node):
+            if isinstance(st, ast.Assign) and any(norm(t) == "self.lib" for t in st.targets):
+                MS = MS or Sem(idx, m)
+                r8.instance(f"{m.short}: {norm1(st)}")
+                ok = normalised(MS, st.value, MS.cfg.node(st))
+                r8.check(ok and lower_only, "stored back-end name is a lower-case literal or went through .lower()", m, st,
+                         f"`{norm1(st)}` stores a name that was not normalised with .lower(): the branches of transform()/__call__ compare self.lib with "
+                         f"{sorted(literals)}, so an accepted spelling such as 'FFTW' or 'Numpy' selects no branch and the grid transform is silently skipped "
+                         f"(the back ends then disagree)")
 
 
 def return_cases_c02(S):
@@ -662,6 +783,14 @@ def fftw_buffer_ownership(ctx, cls) -> None:
 from ..selftest import V  # noqa: E402
 
 SELFTEST = [
+    V("back-end name stored before it is lower-cased (seeded C02-m5)", FF, "        fftlib = fftlib.lower()\n        assert fftlib in ('fftw', 'numpy', 'slow')",
+      "        assert fftlib.lower() in ('fftw', 'numpy', 'slow')", "fire", "R02.8"),
+    V("back-end name stripped and lower-cased", FF, "        fftlib = fftlib.lower()\n        assert fftlib in ('fftw', 'numpy', 'slow')",
+      "        fftlib = fftlib.strip().lower()\n        assert fftlib in ('fftw', 'numpy', 'slow')", "silent", "R02.8"),
+    V("k-list of a constructed transform object replaced in place (seeded C02-m6)", RV,
+      "        if k_list is not None:\n            self.fft_R_to_k = FFT_R_to_k(\n                iRvec=self.iRvec,\n                k_list=k_list,\n                num_wann=num_wann,\n                fftlib=\"slow\")\n",
+      "        if k_list is not None and self.fft_R2k_set and self.fft_R_to_k.lib == \"slow_path\":\n            self.fft_R_to_k.k_list = k_list\n        elif k_list is not None:\n            self.fft_R_to_k = FFT_R_to_k(\n                iRvec=self.iRvec,\n                k_list=k_list,\n                num_wann=num_wann,\n                fftlib=\"slow\")\n",
+      "fire", "R02.9"),
     V("stale grid-shift phase after re-configuration (seeded C02-m1)", RV,
       "        if self.fft_R_to_k.lib == \"slow_path\":\n            return XX_R", "        if getattr(self, 'expdK', None) is None:\n            return XX_R", "fire", "R02.3"),
     V("one-shot fancy-index placement (seeded C02-m2, simplified)", FF,
